@@ -230,10 +230,12 @@ pub fn seq_scenario(q: BoxedStrategy<QCfg>, max_len: usize, add_stream_on_mpmc: 
 /// Sequential "crowd" histories for C14: many distinct tasks parked at the same time (10..13 sink
 /// tasks on a full queue, or stream tasks on an empty one), then the one event that must wake all of
 /// them.  `FutWait::notify` treats a parked list longer than its inline buffer differently.
-pub fn crowd_scenario(opts: ExecOpts) -> BoxedStrategy<Scenario> {
+pub fn crowd_scenario(opts: ExecOpts, hangup_only: bool) -> BoxedStrategy<Scenario> {
     let q = qcfg(BOTH, FutMode::Always, prop_oneof![Just(1u8), Just(2u8), Just(4u8)].boxed(), wait_any());
     (q, 6usize..=13, any::<bool>(), 0u8..5, any::<bool>(), vec(seq_op(SeqAlphabet { futures_ops: true, add_stream: false, teardown: false }), 0..6))
         .prop_map(move |(q, k, sink_side, event, lagging, tail)| {
+            // C07 only looks at the last sender going away while stream tasks are parked
+            let (sink_side, event) = if hangup_only { (false, 2 + event % 2) } else { (sink_side, event) };
             let n = q.n();
             let bcast = q.flavour == Flavour::Broadcast;
             let mut ops: Vec<Op> = Vec::new();
